@@ -1,9 +1,12 @@
 -------------------------- MODULE MC_PersistenceWF --------------------------
 EXTENDS PersistenceWF, Json
-(* Generation: the shapes of one family, one JSON line each, with what the model says about them (which fields two
-   loads share in the code as it is, which they own, the aliasing profile).  No transitions.                    *)
+(* Generation: the shapes of one family, one JSON line each, with what the model says about them: which fields two
+   loads share (`shared`: none when the cached getters deep-copy, DeepCopy = TRUE, the code since fix 1d9dc38;
+   `shared_if_shallow`: the byref fields of cached rows, shared under cachebox' default post-processing), which
+   fields every load owns, the aliasing profile.  No transitions.                                               *)
 GenInit == /\ shape \in Shapes /\ profile = ProfileOf(shape) /\ InitHist
-           /\ PrintT(ToJson([shape |-> shape, shared |-> SharedFields(shape), copied |-> CopiedFields(shape),
+           /\ PrintT(ToJson([shape |-> shape, shared |-> (IF DeepCopy THEN {} ELSE SharedFields(shape)),
+                             shared_if_shallow |-> SharedFields(shape), copied |-> CopiedFields(shape),
                              fresh |-> FreshFields, profile |-> profile]))
 GenNext == FALSE /\ UNCHANGED vars
 =============================================================================
